@@ -35,6 +35,8 @@ var families = []string{
 	"dollar-quote",               // $$…$$, $tag$…$tag$, stray `$`
 	"dollar-quote-tag",           // $tag$ replacement scans with every short tag (digits / underscore / non-ASCII in every position)
 	"dollar-quote-nonascii-tag",  // the same with a non-ASCII letter in the tag (DuckDB accepts it, the masker does not)
+	"skip-prefix-quoted",         // quoted measurement names starting with a skipPrefixes entry
+	"from-mask-lookalike",        // user text shaped like __FROM_MASK_n__ next to EXTRACT/SUBSTRING/TRIM/OVERLAY
 	"query-function",             // query('<sql text>') / query_table('<name>'): SQL handed over inside a string literal
 	"denylist-gap",               // table functions of the linked DuckDB that are not on the denylist
 	"header-glued-from",          // header set; FROM glued to a preceding digit (single-table fast path)
@@ -324,6 +326,37 @@ func (g *gen) grid() []stmt {
 			add(fam, "subquery", allowedDB, "SELECT canary FROM (SELECT * FROM "+lit+") q")
 			add(fam, "cte", allowedDB, "WITH w AS (SELECT * FROM "+lit+") SELECT canary FROM w")
 		}
+	}
+
+	// --- measurements whose names start with a skip prefix (pg_, duckdb_, information_schema, read_parquet):
+	// bare they are system tables for both sides; QUOTED both sides must resolve the placeholder BEFORE the
+	// skip-prefix test (else the rewriter splices a path the extractor never reported)
+	for _, hdr := range []string{"", allowedDB, secretDB} {
+		for _, m := range []string{"pg_ledger", "duckdb_audit", "information_schema_log", "read_parquet_log", "pg_ok", "PG_ledger", "Duckdb_audit"} {
+			refs := []string{`"` + m + `"`, m, "`" + m + "`"}
+			if hdr == "" {
+				refs = append(refs, defaultDB+`."`+m+`"`, `"`+defaultDB+`"."`+m+`"`, `"`+defaultDB+`".`+m, defaultDB+"."+m, secretDB+`."`+m+`"`, `"`+secretDB+`"."`+m+`"`, allowedDB+`."`+m+`"`)
+			}
+			for _, ref := range refs {
+				for _, sh := range shapes[:9] {
+					add("skip-prefix-quoted", sh.name, hdr, sh.f(okTable(hdr), ref))
+				}
+				add("skip-prefix-quoted", "natural-join", hdr, "SELECT * FROM "+okTable(hdr)+" a NATURAL JOIN "+ref)
+				add("skip-prefix-quoted", "with-literal", hdr, "SELECT 'x' AS q, canary FROM "+ref)
+			}
+		}
+	}
+	// --- __FROM_MASK_n__ look-alike: UnmaskFromKeywordsInFunctionBodies replaces EVERY occurrence of the
+	// placeholder it generated for EXTRACT(… FROM …) - including the user's own text - by FROM
+	for _, hdr := range []string{"", allowedDB} {
+		for _, fn := range []string{"EXTRACT(year FROM DATE '2024-01-01')", "extract(hour from time)", "SUBSTRING('abc' FROM 2)", "TRIM(BOTH 'x' FROM 'xax')", "OVERLAY('abc' PLACING 'z' FROM 2)"} {
+			for _, q := range []string{"'" + sp + "'", "$$" + sp + "$$", `"` + sp + `"`, secretDB + ".cpu", "parquet_scan('" + sp + "')"} {
+				add("from-mask-lookalike", "select", hdr, "SELECT "+fn+" AS y, canary __FROM_MASK_0__ "+q)
+				add("from-mask-lookalike", "second", hdr, "SELECT "+fn+" AS y, "+fn+" AS z, canary __FROM_MASK_1__ "+q)
+				add("from-mask-lookalike", "with-from", hdr, "SELECT "+fn+" AS y, b.canary FROM "+okTable(hdr)+" a __FROM_MASK_0__ "+q+" b")
+			}
+		}
+		add("from-mask-lookalike", "no-trigger", hdr, "SELECT 1 AS y, canary __FROM_MASK_0__ '"+sp+"'")
 	}
 
 	// --- lexical disguises: hide a live payload from the validator
